@@ -1280,6 +1280,7 @@ func (ea *functionAnalysisState) RunForwardIterative() error {
 		return nil
 	}
 	for len(ea.worklist) > 0 {
+		verifPickBlock(ea)
 		block := ea.worklist[0]
 		ea.worklist = ea.worklist[1:]
 		g := ea.blockEnd[block]
@@ -1496,6 +1497,7 @@ func EscapeAnalysis(state *dataflow.AnalyzerState, root *callgraph.Node) (*Progr
 	// The main worklist algorithm. Reanalyze each function, putting any function(s) that need to be reanalyzed back on
 	// the list
 	for len(worklist) > 0 {
+		verifPickFunc(worklist)
 		summary := worklist[len(worklist)-1]
 		worklist = worklist[:len(worklist)-1]
 
